@@ -87,10 +87,42 @@ def views_tie(chk):
                        len(meta), dis)
 
 
+def kicks_exceed_budget(cfg):
+    """formed BH mass per age (same configuration, no kicks, full dynamical retention) and the mass the natal kicks remove from it"""
+    import warnings
+    emf, _m, _i, kicks_ = U.mods()
+    try:
+        with warnings.catch_warnings():
+            warnings.simplefilter("ignore")
+            ref = FR.build(dict({k: v for k, v in cfg.items() if k not in ("natal_kicks", "kick_method", "vesc", "want_ifmr_grid")}, BH_ret_dyn=1.0))
+            old = emf.EvolvedMF._evolve
+            emf.EvolvedMF._evolve = lambda self: None
+            try:
+                shell = FR.build({k: v for k, v in cfg.items() if k != "want_ifmr_grid"})
+            finally:
+                emf.EvolvedMF._evolve = old
+        rows = []
+        for i in range(len(cfg["tout"])):
+            M, N = np.array(ref.Mr.BH[i], dtype=float), np.array(ref.Nr.BH[i], dtype=float)
+            formed = float(M.sum())
+            kicked = float(kicks_.natal_kicks(M.copy(), N.copy(), **shell._kick_kw)[2]) if formed > 0 else 0.0
+            rows.append(dict(age=float(cfg["tout"][i]), formed=formed, kicked=kicked, ejected_share=(1.0 - cfg["BH_ret_dyn"]) * formed))
+        return dict(exceeds=bool(any(r["kicked"] > r["ejected_share"] * (1 + 1e-9) for r in rows)), rows=rows)
+    except Exception as e:  # noqa
+        return None
+
+
 def inspect(chk, out):
     cfg = out["cfg"]
     if "error" in out and "Natal kicks already removed" in out.get("msg", ""):
-        chk.count("kicks exceed the ejection budget: ValueError by design (C07/C17), not a valid configuration")
+        # by design ONLY IF the kicks really exceed the ejected share (1 - BH_ret_dyn) * formed at some requested age: recomputed by hand from the
+        # same configuration without kicks and with full dynamical retention, and the library's kick routine applied to copies of those rows
+        over = kicks_exceed_budget(cfg)
+        if over is None or over["exceeds"]:
+            chk.count("kicks exceed the ejection budget: ValueError by design (C07/C17), not a valid configuration")
+        else:
+            chk.fail("construction of a valid configuration returns without raising", cfg, dict(error=out["error"], msg=out["msg"][:120], recomputed=over),
+                     error=out["error"], site=out.get("site"), kicks_within_budget=True)
         return
     if "error" in out:
         sites = out.get("sites", [])
